@@ -325,3 +325,120 @@ theorem readRow_of_all {raw : Raw C} {sel : List (RB C F)}
 
 end Table
 end EngineModel
+
+namespace EngineModel
+namespace Table
+
+set_option linter.unusedSectionVars false
+variable {C F : Type} [DecidableEq C] [DecidableEq F]
+
+/-! ## aligned SELECT: the whole row at once -/
+
+/-- The source an aligned `SELECT` reads member `f` from. -/
+def expectedSrc (sp : TSpec C F) (present : F → Bool) (f : F) : RSrc C :=
+  if present f then .col (sp.colOf f) (sp.tyOf f).pty (sp.tyOf f).rconv else absentSrc (sp.tyOf f)
+
+theorem alignedR_fields {sp : TSpec C F} {present : F → Bool} {sel : List (RB C F)}
+    (har : alignedR sp present sel = true) : sel.map (·.field) = sp.fields := by
+  simp only [alignedR, Bool.and_eq_true, decide_eq_true_eq] at har
+  exact har.1
+
+theorem alignedR_src {sp : TSpec C F} {present : F → Bool} {sel : List (RB C F)}
+    (har : alignedR sp present sel = true) {b : RB C F} (hb : b ∈ sel) :
+    b.src = expectedSrc sp present b.field := by
+  simp only [alignedR, Bool.and_eq_true, decide_eq_true_eq, List.all_eq_true] at har
+  exact har.2 b hb
+
+/-- An aligned `SELECT` over a raw row from which every member's expected
+source reads `target f` returns exactly `target`. -/
+theorem readRow_aligned {sp : TSpec C F} {present : F → Bool} {sel : List (RB C F)} {raw : Raw C}
+    (target : Row F) (har : alignedR sp present sel = true)
+    (hnd : nodupB sp.fields = true) (hall : ∀ f, f ∈ sp.fields)
+    (h : ∀ f, readSrc raw (expectedSrc sp present f) = .ok (target f)) :
+    readRow raw sel = .ok target := by
+  have hsrc : ∀ b ∈ sel, readSrc raw b.src = .ok (target b.field) := by
+    intro b hb
+    rw [alignedR_src har hb]; exact h b.field
+  obtain ⟨g, hg⟩ := readRow_of_all (raw := raw) (sel := sel) (fun b hb => ⟨_, hsrc b hb⟩)
+  rw [hg]
+  congr 1
+  funext f
+  have hf : f ∈ sel.map (·.field) := by rw [alignedR_fields har]; exact hall f
+  obtain ⟨b, hb, rfl⟩ := List.mem_map.mp hf
+  have h1 := readRow_ok hg (by rw [alignedR_fields har]; exact hnd) b hb
+  rw [hsrc b hb] at h1
+  simp only [Res.ok.injEq] at h1
+  exact h1.symm
+
+/-- What an aligned write followed by an aligned read yields for one member. -/
+theorem read_after_write {sp : TSpec C F} {need : List F} {consts : List (C × Val)}
+    {ps : List (WB C F)} {r : Row F} {l : List (C × Val)}
+    (ha : alignedW sp need consts ps = true) (he : evalParams r ps = .ok l)
+    (base raw : Raw C) {f : F} (hf : f ∈ need) (hwt : wtv (sp.tyOf f) (r f) = true)
+    (hraw : raw (sp.colOf f) = assign base l (sp.colOf f)) :
+    readSrc raw (.col (sp.colOf f) (sp.tyOf f).pty (sp.tyOf f).rconv) = .ok (normV (sp.tyOf f) (r f)) := by
+  obtain ⟨v, hv, hcol⟩ := assign_evalParams ha he base hf
+  simp only [readSrc, hraw, hcol]
+  exact conv_roundtrip hwt hv
+
+/-- The columns an aligned write names (no constants): columns of needed members. -/
+theorem evalParams_cols_need {sp : TSpec C F} {need : List F}
+    {ps : List (WB C F)} {r : Row F} {l : List (C × Val)}
+    (ha : alignedW sp need [] ps = true) (he : evalParams r ps = .ok l) {c : C}
+    (hc : c ∈ l.map (·.1)) : c ∈ need.map sp.colOf := by
+  rw [(evalParams_ok he).1] at hc
+  rcases alignedW_cols ha hc with h | h
+  · exact h
+  · simp at h
+
+theorem absentSrc_read (raw : Raw C) (ty : FTy) :
+    readSrc raw (absentSrc ty : RSrc C) =
+      .ok (match ty with | .time | .timeText => .time 0 | _ => .oint none) := by
+  cases ty <;> rfl
+
+end Table
+end EngineModel
+
+namespace EngineModel
+namespace Table
+set_option linter.unusedSectionVars false
+variable {C F : Type} [DecidableEq C] [DecidableEq F]
+
+/-- An aligned write names the column of every needed member. -/
+theorem alignedW_mem {sp : TSpec C F} {need : List F} {consts : List (C × Val)} {ps : List (WB C F)}
+    (ha : alignedW sp need consts ps = true) {f : F} (hf : f ∈ need) : sp.colOf f ∈ ps.map (·.col) := by
+  simp only [alignedW, Bool.and_eq_true, List.all_eq_true, List.contains_eq_mem,
+    decide_eq_true_eq] at ha
+  obtain ⟨⟨⟨_, _⟩, hneed⟩, _⟩ := ha
+  exact List.mem_map.mpr ⟨_, hneed f hf, rfl⟩
+
+end Table
+end EngineModel
+
+namespace EngineModel
+namespace Table
+set_option linter.unusedSectionVars false
+variable {C F : Type} [DecidableEq C] [DecidableEq F]
+
+/-- What an aligned `SELECT` that returned `g` read for member `f`. -/
+theorem readRow_aligned_inv {sp : TSpec C F} {present : F → Bool} {sel : List (RB C F)} {raw : Raw C}
+    {g : Row F} (har : alignedR sp present sel = true) (hnd : nodupB sp.fields = true)
+    (h : readRow raw sel = .ok g) {f : F} (hf : f ∈ sp.fields) :
+    readSrc raw (expectedSrc sp present f) = .ok (g f) := by
+  have hf' : f ∈ sel.map (·.field) := by rw [alignedR_fields har]; exact hf
+  obtain ⟨b, hb, rfl⟩ := List.mem_map.mp hf'
+  have h1 := readRow_ok h (by rw [alignedR_fields har]; exact hnd) b hb
+  rw [alignedR_src har hb] at h1
+  exact h1
+
+/-- The expected source of a member looks at that member's column only. -/
+theorem readSrc_congr {sp : TSpec C F} {present : F → Bool} {raw1 raw2 : Raw C} {f : F}
+    (h : raw1 (sp.colOf f) = raw2 (sp.colOf f)) :
+    readSrc raw1 (expectedSrc sp present f) = readSrc raw2 (expectedSrc sp present f) := by
+  unfold expectedSrc
+  split
+  · simp only [readSrc, h]
+  · cases sp.tyOf f <;> rfl
+
+end Table
+end EngineModel
